@@ -17,6 +17,7 @@ func VH_C13_tellHubExactlyOnce() bool {
 	var r0, r1 error
 	d0, d1 := make(chan struct{}), make(chan struct{})
 	cb := func(m p2p.Message[vAddr]) {
+		vYield() // a scheduling point inside the callback: anything that should wait for it must still be waiting
 		calls++
 		vAssert(len(m.Payload) == 1 && m.Payload[0] == 7 && m.Src == 1 && m.Dst == 2, "callback-saw-wrong-message")
 		cbDone = true
@@ -54,7 +55,7 @@ func VH_C13_tellHubDeliverCancel() bool {
 	var rr error
 	dr := make(chan struct{})
 	go func() {
-		rr = h.Receive(ctxR, func(m p2p.Message[vAddr]) { calls++ })
+		rr = h.Receive(ctxR, func(m p2p.Message[vAddr]) { vYield(); calls++ })
 		close(dr)
 	}()
 	go func() { ctxD.cancel() }()
@@ -83,6 +84,7 @@ func VH_C13_askHubExactlyOnce() bool {
 	var r0, r1 error
 	d0, d1 := make(chan struct{}), make(chan struct{})
 	fn := func(ctx context.Context, resp []byte, m p2p.Message[vAddr]) int {
+		vYield()
 		calls++
 		resp[0] = m.Payload[0] + 1
 		return 1
